@@ -279,7 +279,7 @@ PLANS = {
     "C07": dict(e1=["ticket_pulls", "ticket_skip", "ticket_comp", "ticket_3t", "ticket_owner"],
                 inv=["Inv_C07_NoRace", "Inv_C07_Mutex"], bundles=["core"], hb=True, revive=True,
                 only=lambda f: f["fam"] == "ticket"),
-    "C08": dict(e1=[], inv=[], bundles=["core", "panic"], only=lambda f: f["consuming"]),
+    "C08": dict(e1=["counter_own_vec", "counter_own_arr", "counter_owner"], inv=["Inv_C08", "Inv_OwnEnd"], bundles=["core", "panic"], only=lambda f: f["consuming"]),
     "C09": dict(e1=["counter_pulls", "counter_skipq", "counter_comp", "counter_3t", "ticket_pulls", "ticket_skip", "ticket_comp", "ticket_3t", "ticket_query"],
                 inv=["Inv_C09_LockFree"], bundles=["core", "freeze"], deadlock=True, revive=True),
     "C10": dict(e1=["counter_owner", "counter_range", "ticket_owner"], inv=["Inv_C10"], bundles=["core"]),
@@ -288,7 +288,7 @@ PLANS = {
                 extra_flags={"comp": ["NoDup", "NoLoss", "Index", "Hang"]}),
     "C13": dict(e1=[], inv=[], bundles=["twin"], flags=["Differs", "CloneCount", "SrcDropped", "SrcModified"]),
     "C14": dict(e1=[], inv=[], bundles=["lowlevel"], flags=["OwnTwice", "NoDup", "OwnGarbage", "Abort"], static=True),
-    "C15": dict(e1=[], inv=[], bundles=["core"], only=lambda f: f["consuming"]),
+    "C15": dict(e1=["counter_own_vec", "counter_own_arr"], inv=["Inv_OwnEnd"], bundles=["core"], only=lambda f: f["consuming"]),
     "C16": dict(e1=[], inv=[], bundles=["boundary"], flags=["Boundary", "BoundaryAfterWrap"]),
     "C17": dict(e1=[], inv=[], bundles=["dual"], flags=["Differs", "Abort", "Panic"]),
     "C18": dict(e1=["ticket_panic1", "ticket_panic2"], inv=["Inv_C01", "Inv_C07_Mutex"], bundles=["panic"], deadlock=True,
@@ -332,7 +332,7 @@ def decide(pid, tier, seed, t0):
     # ---- E1 -------------------------------------------------------------------------------------
     for name, (module, consts, invs, dl) in e1_for(pid, tier):
         use = [i for i in plan["inv"] if (module == "Ticket" or not i.startswith("Inv_C07") and i != "Inv_TicketIsPosition")
-               and (module == "Counter" or i != "Inv_C09_LockFree")]
+               and (module == "Counter" or i not in ("Inv_C09_LockFree", "Inv_OwnEnd"))]
         r = engine.model_check(name, module, consts, invs, deadlock=dl)
         mine = r["violated"] in use or (r["violated"] == "deadlock" and plan.get("deadlock"))
         if r["violated"] and not mine:
@@ -534,7 +534,7 @@ def write_evidence(pid, tier, seed, t0, e1, bundles, relevant, nontrivial, sampl
         json.dump(ev, f, indent=1)
 
 
-PLAN_LEVEL = {"C08": "exploration", "C15": "exploration", "C13": "translation_validation", "C17": "translation_validation",
+PLAN_LEVEL = {"C13": "translation_validation", "C17": "translation_validation",
               "C14": "other", "C16": "exploration"}
 
 
